@@ -1,11 +1,13 @@
 #!/bin/bash
 # Build the framework offline from files on disk: tables from /repo, then a
-# full .vo build of the Coq development (no -vos/-vok quick modes).
+# full .vo build (no -vos/-vok quick modes) of the Coq development: the
+# closure of props/C<nn>.vo for every check claimed in MANIFEST.json, plus
+# the case-evaluation modules.
 set -e
 cd "$(dirname "$0")"
 export PYTHONPATH=/repo/src PYTHONHASHSEED=0 PYTHONDONTWRITEBYTECODE=1
 /venv/bin/python - <<'PY'
-import sys
+import sys, json, os, glob
 sys.path.insert(0, "harness")
 import lib
 bad = lib.grep_gate()
@@ -15,10 +17,14 @@ ok, msg = lib.regen_tables()
 print(msg)
 if not ok:
     sys.exit(1)
-lib.gen_coqproject()
+lib.ensure_makefile()
+claimed = [c["property_id"] for c in json.load(open("MANIFEST.json"))["checks"]]
+targets = ["props/%s.vo" % c for c in claimed]
+for c in claimed:
+    targets += [os.path.relpath(p, lib.COQ)[:-2] + ".vo" for p in glob.glob(os.path.join(lib.COQ, "model", c + "*.v"))]
+ok, log, dt = lib.coq_make(sorted(set(targets)), timeout=3000)
+print("\n".join(l for l in log.splitlines() if not l.startswith(("COQDEP", "Warning")))[-3000:])
+print("built %d targets for %d claimed checks in %.0fs" % (len(set(targets)), len(claimed), dt))
+sys.exit(0 if ok else 1)
 PY
-cd coq
-timeout 300 coq_makefile -f _CoqProject -o Makefile 2>/dev/null
-timeout 3000 make -j16 2>&1 | grep -v "^Warning\|^COQDEP" | tail -40
-test ${PIPESTATUS[0]} -eq 0
 echo "setup ok"
